@@ -36,13 +36,15 @@ ACTIONS = ['extkill', 'restart', 'reload', 'reloadseq', 'incr', 'decr', 'reloadc
 
 def plan(tier, seed):
     n = 12 if tier == 'quick' else 60
-    return [{'seed': seed, 'idx': i, 'gens': 6 if tier == 'quick' else 10} for i in range(n)]
+    return ([{'seed': seed, 'idx': i, 'gens': 6 if tier == 'quick' else 10} for i in range(n)] +
+            # a unix socket file left behind by an earlier daemon (no `replace`): start-up is refused, or the socket works
+            [{'seed': seed, 'idx': 1000 + i, 'gens': 2, 'stale_unix': True} for i in range(1 if tier == 'quick' else 4)])
 
 
 def build(rnd):
-    socks = [{'name': 'web', 'kind': 'inet', 'explicit': rnd.random() < .5}]
+    socks = [{'name': rnd.choice(['web', 'web', 'prise_été', 'W3b-x']), 'kind': 'inet', 'explicit': rnd.random() < .5}]
     if rnd.random() < .8:
-        socks.append({'name': 'ux', 'kind': 'unix'})
+        socks.append({'name': rnd.choice(['ux', 'ux', 'ünix']), 'kind': 'unix'})
     if rnd.random() < .4:
         socks.append({'name': 'rp', 'kind': 'inet', 'reuseport': True})
     ws = []
@@ -63,11 +65,16 @@ def build(rnd):
     return {'sockets': socks, 'watchers': ws}
 
 
+def fname(sockname):
+    """ASCII file name of a unix socket (the section name may be anything; strace escapes non-ASCII bytes)"""
+    return 'u' + ''.join(c if c.isascii() and c.isalnum() else '_' for c in sockname)
+
+
 def ini_for(d, conf):
     txt = d.header(check_delay=0.3)
     for s in conf['sockets']:
         if s['kind'] == 'unix':
-            txt += '[socket:%s]\npath = @DIR@/%s.sock\n\n' % (s['name'], s['name'])
+            txt += '[socket:%s]\npath = @DIR@/%s.sock\n\n' % (s['name'], fname(s['name']))
         else:
             txt += '[socket:%s]\nhost = 127.0.0.1\nport = 0\n%s%s\n' % (
                 s['name'], 'so_reuseport = True\n' if s.get('reuseport') else '',
@@ -93,10 +100,22 @@ def run_case(spec):
     actions = spec.get('actions') or [rnd.choice(ACTIONS) for _ in range(spec['gens'])]
     d = live.Daemon('', strace=True)
     d.ini = ini_for(d, conf).replace('@DIR@', d.dir).replace('@LOG@', d.logdir)
-    with open(d.ini_path, 'w') as f:
+    with open(d.ini_path, 'w', encoding='utf8') as f:
         f.write(d.ini)
     for w in conf['watchers']:
         os.mkdir(os.path.join(d.dir, 'wd_%s' % w['name']))
+    if spec.get('stale_unix'):
+        if not any(s_['kind'] == 'unix' for s_ in conf['sockets']):
+            conf['sockets'].append({'name': 'ux', 'kind': 'unix'})
+            d.ini = ini_for(d, conf).replace('@DIR@', d.dir).replace('@LOG@', d.logdir)
+            with open(d.ini_path, 'w', encoding='utf8') as f:
+                f.write(d.ini)
+        for s_ in conf['sockets']:
+            if s_['kind'] == 'unix':
+                st = socket.socket(socket.AF_UNIX)
+                st.bind(os.path.join(d.dir, '%s.sock' % fname(s_['name'])))
+                st.close()
+        conf['stale_unix'] = True
     nv = len(res.viol)
     try:
         _case(d, conf, actions, rnd, res)
@@ -138,14 +157,25 @@ def wait_dumps(d, pids, timeout=10.0):
 def _case(d, conf, actions, rnd, res):
     d.start()
     total = sum(w['np'] for w in conf['watchers']) + 1
+    if conf.get('stale_unix'):
+        t_end = time.time() + 10
+        while time.time() < t_end and d.proc.poll() is None and not os.path.exists(os.path.join(d.dir, 'ctl')):
+            time.sleep(0.05)
+        if d.proc.poll() is not None or not d.wait_ready(5):
+            res.obs['start_refused_over_a_stale_unix_socket_file'] += 1
+            res.nontrivial('stale-unix:refused')
+            res.sample = {'case': 'stale unix socket file, no replace', 'outcome': 'circusd refused to start',
+                          'output_tail': d.output()[-200:]}
+            return
+        res.obs['started_over_a_stale_unix_socket_file'] += 1
     if not d.wait_ready(20) or not d.workers_up(total, 15):
         res.inconclusive.append('daemon not ready: %s' % d.output()[-300:])
         return
     ls = d.call('listsockets').get('sockets', [])
-    byname = {s['name']: s for s in ls}
+    byname = {s['name'].lower(): s for s in ls}        # socket names are case-insensitive (stored lower-cased)
     managed = {}
     for s in conf['sockets']:
-        info = byname.get(s['name'])
+        info = byname.get(s['name'].lower())
         if info is None:
             res.violation('C07/socket-not-listed', 'managed socket %s missing from listsockets %s' % (s['name'], ls))
             return
@@ -158,7 +188,7 @@ def _case(d, conf, actions, rnd, res):
             if m['conf']['kind'] == 'unix':
                 c = socket.socket(socket.AF_UNIX)
                 c.settimeout(2)
-                c.connect(os.path.join(d.dir, '%s.sock' % name))
+                c.connect(os.path.join(d.dir, '%s.sock' % fname(name)))
             else:
                 port = _port_of(d.pid, m['fd'])
                 if port is None:
@@ -288,13 +318,13 @@ def _case(d, conf, actions, rnd, res):
             d.call('reloadconfig', waiting=True, timeout=15)
         elif act == 'reloadconfig-edit':
             # edit that watcher's section (another option than numprocesses): it is re-created by the reload
-            txt = open(d.ini_path).read()
+            txt = open(d.ini_path, encoding='utf8').read()
             head, sep, tail = txt.partition('[watcher:%s]' % wn)
             if 'graceful_timeout = 1\n' in tail.split('[watcher:', 1)[0] or 'graceful_timeout = 1\n' in tail[:tail.find('\n\n') + 2]:
                 tail = tail.replace('graceful_timeout = 1\n', 'graceful_timeout = 2\n', 1)
             else:
                 tail = tail.replace('graceful_timeout = 2\n', 'graceful_timeout = 1\n', 1)
-            with open(d.ini_path, 'w') as f:
+            with open(d.ini_path, 'w', encoding='utf8') as f:
                 f.write(head + sep + tail)
             d.call('reloadconfig', waiting=True, timeout=20)
         time.sleep(0.4)
@@ -307,7 +337,7 @@ def _case(d, conf, actions, rnd, res):
         if m['conf'].get('reuseport'):
             continue
         if m['conf']['kind'] == 'unix':
-            mine = [ln for ln in binds if '%s.sock' % name in ln]
+            mine = [ln for ln in binds if '%s.sock' % fname(name) in ln]
         else:
             mine = [ln for ln in binds if re.search(r'bind\(%d, \{sa_family=AF_INET, sin_port=htons\(0\)' % m['fd'], ln)]
         res.obs['bind_calls_seen'] += len(mine)
